@@ -55,6 +55,14 @@ def extra(sp, rng):
     yield 'right-scaled', lambda: f * 3.0, ('smooth',), lambda x: f(3.0 * x)
     yield 'right-scaled(negative)', lambda: S.Huber(sp, 0.5) * (-2.0), ('c1',), lambda x: S.Huber(sp, 0.5)(-2.0 * x)
     yield 'left-scaled', lambda: 2.5 * f, ('smooth',), lambda x: 2.5 * f(x)
+    # enumerated (not seeded) repeated scalings with factors on both sides of one: the Lipschitz constant of b (a f) is |a b| L
+    # and that of (f a) b is (a b)^2 L - a factor counted twice under-estimates only for |a| < 1
+    hub = S.Huber(sp, 0.5)
+    yield 'left-scaled(left-scaled,<1)', lambda: 3.0 * (0.25 * f), ('smooth',), lambda x: 0.75 * f(x)
+    yield 'left-scaled(left-scaled(Huber),>1)', lambda: 0.5 * (4.0 * hub), ('c1',), lambda x: 2.0 * hub(x)
+    yield 'difference-of-scaled', lambda: f - 0.5 * (0.5 * f), ('smooth',), lambda x: 0.75 * f(x)
+    yield 'right-scaled(right-scaled,<1)', lambda: (f * 0.5) * 0.5, ('smooth',), lambda x: f(0.25 * x)
+    yield 'right-scaled(left-scaled(Huber),<1)', lambda: (0.3 * hub) * 0.5, ('c1',), lambda x: 0.3 * hub(0.5 * x)
     yield 'right-vector', lambda: f * v, ('smooth',), lambda x: f(v * x)
     yield 'sum', lambda: f + h, (), lambda x: f(x) + h(x)
     yield 'scalar-sum', lambda: f + 1.25, ('smooth',), lambda x: f(x) + 1.25
